@@ -1066,3 +1066,35 @@ func (g *Gen) mismatchSumProgram() *GProgram {
 	}
 	return g.prog
 }
+
+// cappedWorldThen: `max N from @world` (or a bounded / capped unbounded overdraft) FOLLOWED by ordinary
+// sources in one in-order list: the capped part gives at most N, the accounts after it give the rest, so
+// their balances matter (and must have been requested).
+func (g *Gen) cappedWorldThenProgram() *GProgram {
+	asset := "USD"
+	g.asset = asset
+	g.smallBalances([]string{"a", "b"}, asset, 50)
+	capn := int64(g.r.Intn(30))
+	var first *GSource
+	switch g.r.Intn(3) {
+	case 0:
+		first = &GSource{Kind: SrcCapped, Cap: lit(asset, bi(capn)), From: srcAcct("world")}
+	case 1:
+		first = &GSource{Kind: SrcCapped, Cap: lit(asset, bi(capn)), From: &GSource{Kind: SrcOverdraft, E: acct("c")}}
+	default:
+		first = &GSource{Kind: SrcCapped, Cap: lit(asset, bi(capn)), From: &GSource{Kind: SrcInorder, Subs: []*GSource{srcAcct("world")}}}
+	}
+	subs := []*GSource{first, srcAcct("a")}
+	if g.r.Chance(1, 2) {
+		subs = append(subs, srcAcct("b"))
+	}
+	if g.r.Chance(1, 4) {
+		subs = append([]*GSource{srcAcct("b")}, subs[:2]...)
+	}
+	sent := &GSent{E: lit(asset, bi(int64(1+g.r.Intn(70))))}
+	if g.r.Chance(1, 4) {
+		sent = &GSent{All: true, E: &GExpr{Kind: XAsset, S: asset}}
+	}
+	g.prog.Stmts = append(g.prog.Stmts, &GStmt{Kind: StSend, Sent: sent, Src: &GSource{Kind: SrcInorder, Subs: subs}, Dst: dstAcct("d")})
+	return g.prog
+}
